@@ -388,3 +388,112 @@ def r7_increment_table(ctx):
 
 
 RULES += [r7_increment_table]
+
+
+_OPTIONAL_ENV = {"m_alloc_env": "region_allocation_sites", "m_tag_env": "region_tag_analysis"}
+
+
+def r8_env_guarded_by_own_parameter(ctx):
+    ctx.rule("C15.r8", "the optional environments of the region domain are each switched by their OWN parameter (m_alloc_env by "
+             "region_allocation_sites, m_tag_env by region_tag_analysis) in every operation: a use of one environment under the "
+             "other's parameter is skipped exactly in the settings where only that environment is tracked (e.g. the inclusion test "
+             "then ignores it and a loop is declared stable while the sets still grow)", floor=40)
+    RD = "include/crab/domains/region_domain.hpp"
+    seen = set()
+    n = 0
+    for fn in ctx.db.fns(RD, cpk="crab::domains::region_domain"):
+        if not fn.get("body") or (fn["name"], fn["line"]) in seen:
+            continue
+        seen.add((fn["name"], fn["line"]))
+        bodies = [fn["body"]] + [l.get("b") for l in walk(fn["body"]) if l.get("k") == "lambda" and l.get("b") is not None]
+        for body in bodies:
+            g = paths.guards(body)
+            for x in walk(body, into_lambdas=False):
+                if not (isinstance(x, dict) and x.get("k") == "mem" and x.get("n") in _OPTIONAL_ENV):
+                    continue
+                gs = g.get(id(x))
+                if gs is None:
+                    continue
+                own = _OPTIONAL_ENV[x["n"]]
+                others = [p for f, p in _OPTIONAL_ENV.items() if f != x["n"]]
+
+                def atom_of(param):
+                    return lambda c: 1 if is_call(strip(c), name=param) else 0
+                t_own = guard_truth(gs, atom_of(own), body)
+                t_oth = [guard_truth(gs, atom_of(p), body) for p in others]
+                if t_own is True:
+                    n += 1
+                    ctx.ok("%s used under %s()" % (x["n"], own), fn, x)
+                elif any(t is True for t in t_oth):
+                    n += 1
+                    ctx.bad("region_domain::%s uses %s under `%s()`, the parameter of the OTHER optional environment, and not under its own "
+                            "`%s()`: with only %s switched on this use is skipped" % (fn["name"], x["n"], others[0], own, own), fn, x,
+                            sig="env-wrong-parameter:%s:%s" % (fn["name"], x["n"]))
+    if n == 0:
+        ctx.fail("rule C15.r8: no parameter-guarded use of m_alloc_env / m_tag_env found")
+
+
+RULES += [r8_env_guarded_by_own_parameter]
+
+
+def r9_alloc_sites_do_not_cover_null(ctx):
+    ctx.rule("C15.r9", "allocation-site sets say nothing about NULL (a reference that is null on one branch and allocated at site A on the "
+             "other has the set {A}): `p == q` is refuted from DISJOINT site sets only if one of the two references is definitely not "
+             "null; otherwise both may be null and equal", floor=2)
+    n = 0
+    for name in ("ref_assume", "assign_bool_ref_cst"):
+        for fn in _fns(ctx, name)[:1]:
+            body = fn["body"]
+            decls = local_decls(body)
+            inters = []
+            for d in decls.values():
+                i = strip_move(d.get("i")) if "i" in d else None
+                if isinstance(i, dict) and i.get("k") in ("ctor", "construct") and len(i.get("a", [])) == 1:
+                    i = strip_move(i["a"][0])
+                if isinstance(i, dict) and i.get("k") == "call" and i.get("op") == "&" and "o" in i and i.get("a"):
+                    sides = [resolve_local(body, strip_move(i["o"]), decls), resolve_local(body, strip_move(i["a"][0]), decls)]
+                    if all(any(is_field(y, "m_alloc_env") for y in walk(sd)) for sd in sides):
+                        inters.append(d)
+            if not inters:
+                continue
+            ids = {d["id"] for d in inters}
+
+            def ev(c):
+                c = strip(c)
+                if not isinstance(c, dict):
+                    return None
+                if is_call(c, name="is_bottom") and isinstance(strip(obj(c)), dict) and strip(obj(c)).get("id") in ids:
+                    return True
+                if is_call(c, name="is_false") and any(is_call(y, name="is_null_ref") for y in walk(obj(c))):
+                    return False            # neither reference is known to be non-null
+                if c.get("k") == "ref" and c.get("rk") == "local":
+                    r = resolve_local(body, c, decls)
+                    return ev(r) if r is not c else None
+                if c.get("k") == "un" and c.get("op") == "!":
+                    x = ev(c.get("e"))
+                    return None if x is None else (not x)
+                if c.get("k") == "bin" and c.get("op") in ("&&", "||"):
+                    a, b = ev(c.get("L")), ev(c.get("R"))
+                    if c["op"] == "&&":
+                        return False if (a is False or b is False) else (True if (a is True and b is True) else None)
+                    return True if (a is True or b is True) else (False if (a is False and b is False) else None)
+                return None
+            g = paths.guards(body)
+            for iff in [x for x in walk(body) if x.get("k") == "if"]:
+                c = iff.get("c")
+                if not any(is_call(y, name="is_bottom") and isinstance(strip(obj(y)), dict) and strip(obj(y)).get("id") in ids for y in walk(c)):
+                    continue
+                n += 1
+                v = ev(c)
+                if v is False:
+                    ctx.ok("%s: disjoint sites conclude only with a definitely non-null reference" % name, fn, iff)
+                else:
+                    ctx.bad("region_domain::%s concludes from disjoint allocation-site sets alone that two references differ: p and q "
+                            "loaded from regions holding {NULL, site A} and {NULL, site B} have the sets {A} and {B}, assume(p == q) "
+                            "becomes bottom and b := (p == q) definitely false although p == q == NULL is an execution" % name, fn, iff,
+                            sig="alloc-sites-ignore-null:%s" % name)
+    if n == 0:
+        ctx.fail("rule C15.r9: no conclusion from the intersection of two allocation-site sets found")
+
+
+RULES += [r9_alloc_sites_do_not_cover_null]
